@@ -123,8 +123,10 @@ Trees are build by:
 It is assumed that all leaves are present. The tree will be corrupt when this is not the case.
 */
 func (t *tree) Load(leaves map[uint32][]byte) error {
-	// nothing to load
+	// nothing to load: the tree is what it is when nothing has been stored yet. It may hold more than that when it is
+	// reloaded after a rolled-back write of the very first transaction.
 	if len(leaves) == 0 {
+		t.resetDefaults(t.leafSize)
 		return nil
 	}
 
